@@ -160,6 +160,9 @@ type World struct {
 	widOff, reqOff uint64                   // ids handed out to the requests of the block being assembled
 	lastNote       string                   // note about the message built last (replays: first-use | reuse)
 	prov           map[uint64]*sim.BtcBlock // blocks voted by earlier transactions of the block being assembled
+	// ExtraBridge: bridge parameter requests the execution layer emits with the next block, besides
+	// those of the block's events (set on a fork, used by one Run)
+	ExtraBridge goattypes.BridgeRequests
 }
 
 // Cloner is implemented by monitor state that travels along a history.
@@ -234,6 +237,11 @@ func (w *World) member(addr string) sim.Member {
 		if m.AddrStr() == addr {
 			return m
 		}
+	}
+	// the joiner's key is derived from its name: a registration applied outside the world's own
+	// bookkeeping (a raw transaction of C19) still leaves a member the world can sign for
+	if m := sim.NewMember("joiner"); m.AddrStr() == addr {
+		return m
 	}
 	panic("unknown relayer member " + addr)
 }
@@ -738,6 +746,10 @@ func (w *World) ApplyReq(e Event) (commit func()) {
 				pick = []string{rel.Voters[0]}
 			case "two":
 				pick = []string{rel.Voters[0], rel.Voters[len(rel.Voters)-1]}
+			case "proposer":
+				// the member that holds the proposer seat is removed (the first voter steps in at the
+				// end of the electing period, without an election)
+				pick = []string{rel.Proposer}
 			}
 			for _, v := range pick {
 				a, _ := sdk.AccAddressFromBech32(v)
@@ -814,6 +826,10 @@ func (w *World) Run(b ABlock) *Result {
 		res.RelayerTxs = append(res.RelayerTxs, tx)
 		commits = append(commits, commit)
 	}
+	w.N.EL.NextBridge.DepositTax = append(w.N.EL.NextBridge.DepositTax, w.ExtraBridge.DepositTax...)
+	w.N.EL.NextBridge.Confirmation = append(w.N.EL.NextBridge.Confirmation, w.ExtraBridge.Confirmation...)
+	w.N.EL.NextBridge.MinDeposit = append(w.N.EL.NextBridge.MinDeposit, w.ExtraBridge.MinDeposit...)
+	w.ExtraBridge = goattypes.BridgeRequests{}
 	if b.FailEth {
 		// a request that makes the execution-block message fail in the handler
 		w.N.EL.NextLocking.Locks = append(w.N.EL.NextLocking.Locks, &goattypes.LockRequest{Validator: common.BytesToAddress([]byte{0xde, 0xad}), Token: common.Address{}, Amount: big.NewInt(5)})
